@@ -123,6 +123,7 @@ func TestC20Model(t *testing.T) {
 		callerBuf := make([]eth2p0.ValidatorIndex, 0, 16)        // a caller that builds every request in one buffer
 		var trace []string
 		partialHit, oddCount, invalidated := false, false, false
+		inFlightReorgs, staleWrites := 0, 0
 
 		nOps := rapid.IntRange(1, 30).Draw(rt, "nOps")
 		for op := 0; op < nOps; op++ {
@@ -167,6 +168,32 @@ func TestC20Model(t *testing.T) {
 				if failNow {
 					bn.Fail(kind, 1)
 				}
+				// a reorg that happens while this request's beacon call is on its way back: the beacon node has
+				// answered from the tables as they were, the tables above a drawn epoch change and the cache is
+				// invalidated (the SSE handler runs concurrently with the request), then the answer arrives
+				wantBefore := direct(kind, e, effective)
+				reorgInFlight, reorgFired, reorgEpoch := rapid.IntRange(0, 7).Draw(rt, "reorgInFlight") == 0, false, eth2p0.Epoch(0)
+				if reorgInFlight {
+					reorgEpoch = eth2p0.Epoch(rapid.IntRange(0, nEpochs-1).Draw(rt, "inFlightReorgEpoch"))
+					bn.AfterAnswer = func(string, eth2p0.Epoch) {
+						if reorgFired {
+							return
+						}
+						reorgFired = true
+						for x := int(reorgEpoch) + 1; x < nEpochs; x++ {
+							fill(eth2p0.Epoch(x))
+							for _, kind := range []string{"attester", "proposer", "sync"} {
+								key := fmt.Sprintf("%s/%d", kind, x)
+								if requested[key] != nil {
+									mustRefetch[key] = true
+								}
+								delete(requested, key)
+							}
+						}
+						cache.InvalidateCache(ctx, reorgEpoch)
+						invalidated = true
+					}
+				}
 				var got []string
 				var raw any
 				var err error
@@ -194,8 +221,13 @@ func TestC20Model(t *testing.T) {
 					raw = r.Duties
 				}
 				bn.Fail(kind, 0)
+				bn.AfterAnswer = nil
 				calls := bn.CallCount(kind) - callsBefore
 				trace = append(trace, fmt.Sprintf("req(%s,e%d,%d idx)->%d calls err=%v", kind, e, len(idx), calls, err != nil))
+				if reorgFired {
+					inFlightReorgs++
+					trace = append(trace, fmt.Sprintf("reorg_while_in_flight(invalidate e%d)", reorgEpoch))
+				}
 				if fmt.Sprint(callerCopy) != fmt.Sprint(idx) {
 					rt.Fatalf("the caller's index slice was modified: %v -> %v", callerCopy, idx)
 				}
@@ -205,7 +237,21 @@ func TestC20Model(t *testing.T) {
 					}
 					continue // a failed beacon call: nothing to compare, nothing cached
 				}
-				if want := direct(kind, e, effective); canon(got) != want {
+				if reorgFired {
+					// this request was answered by the beacon node before the reorg
+					if canon(got) != wantBefore {
+						rt.Fatalf("WRONG ANSWER: %s duties epoch %d for %v (reorg while the answer was on its way)\n cache: %s\n beacon (before the reorg): %s\n trace %v", kind, e, effective, canon(got), wantBefore, trace)
+					}
+					if e > reorgEpoch {
+						// what it carried is older than the invalidation: the epoch has to be fetched afresh
+						if requested[key] != nil || true {
+							mustRefetch[key] = true
+						}
+						delete(requested, key)
+						staleWrites++
+						continue
+					}
+				} else if want := direct(kind, e, effective); canon(got) != want {
 					rt.Fatalf("WRONG ANSWER: %s duties epoch %d for %v\n cache: %s\n beacon: %s\n trace %v", kind, e, effective, canon(got), want, trace)
 				}
 				known := requested[key]
@@ -304,7 +350,7 @@ func TestC20Model(t *testing.T) {
 			}
 		}
 		nontrivial := partialHit || oddCount || invalidated
-		vstat.Case(strings.Join(trace, ";"), nontrivial, cls("partial_hit", partialHit), cls("validator_with_0_or_2+_duties", oddCount), cls("invalidation", invalidated))
+		vstat.Case(strings.Join(trace, ";"), nontrivial, cls("partial_hit", partialHit), cls("validator_with_0_or_2+_duties", oddCount), cls("invalidation", invalidated), cls("reorg_while_a_request_was_in_flight", inFlightReorgs > 0), cls("in_flight_answer_older_than_invalidation", staleWrites > 0))
 		if partialHit && invalidated && vstat.WantSample("history") {
 			vstat.Sample("history", map[string]any{"validators": nVals, "epochs": nEpochs, "ops": trace})
 		}
